@@ -59,17 +59,27 @@ def core (C : Cipher) : Glue.Core St where
 end Impl.Belt
 
 namespace Impl.OfbCore
+/-- `gen_ks_block` of `ofb::Backend`: E(iv) in place; block = iv -/
+def genKsBlock (C : Cipher) (iv : Bytes) : Bytes × Bytes :=
+  let iv := C.enc iv
+  (iv, iv)
+
+/-- the default `gen_par_ks_blocks` (never reached: `ParBlocksSize = U1`) -/
+def genSeqDefault (C : Cipher) : Nat → Bytes → List Bytes × Bytes
+  | 0, iv => ([], iv)
+  | n + 1, iv =>
+    let r := genKsBlock C iv
+    let r2 := genSeqDefault C n r.2
+    (r.1 :: r2.1, r2.2)
+
 /-- `OfbCore` as `StreamCipherCore`: `remaining_blocks = None`, `ParBlocksSize = U1`, not seekable. -/
 def core (C : Cipher) : Glue.Core Bytes where
   bs := C.bs
   parW := fun _ => 1
   cw := 0
   remaining := fun _ => none
-  genBlock := fun iv => let iv := C.enc iv; (iv, iv)
-  genPar := fun n iv => Glue.genSeq
-    { bs := C.bs, parW := fun _ => 1, cw := 0, remaining := fun _ => none,
-      genBlock := fun iv => let iv := C.enc iv; (iv, iv), genPar := fun _ s => ([], s),
-      getPos := fun _ => 0, setPos := fun s _ => s } n iv
+  genBlock := genKsBlock C
+  genPar := genSeqDefault C
   getPos := fun _ => 0
   setPos := fun s _ => s
 end Impl.OfbCore
